@@ -117,6 +117,13 @@ def rule_errd(crate, scope_fns, scope_files, exempt=None, min_fallible=8, lib_pr
     for d, b in crate.hir.items():
         if any(crate.file_of(b).endswith(sf) for sf in scope_files) and b not in bodies:
             bodies.append(b)
+    if "*" in scope_files:
+        # crate-wide: every non-test body that calls into the library at all (moving code never loses coverage)
+        for d, b in crate.hir.items():
+            if b in bodies or "::tests::" in d or "::test::" in d:
+                continue
+            if any((callee(n) or "").find(lib_prefix) >= 0 for n in walk(b["body"]) if n.get("k") in ("Call", "MethodCall")):
+                bodies.append(b)
     n_fallible = n_deny = n_calls = 0
     for b in bodies:
         short = b["def"].split("::")[-1]
@@ -141,7 +148,7 @@ def rule_errd(crate, scope_fns, scope_files, exempt=None, min_fallible=8, lib_pr
                     hit = why
             if hit:
                 n_deny += 1
-                ex = exempt.get((short, c))
+                ex = exempt.get((short, c)) or exempt.get(("*", c))
                 if ex:
                     ok_shape = ex.get("shape") is None or any(x.get("k") == "MethodCall" and x["name"] == ex["shape"] for a in (n.get("args") or []) for x in walk(a))
                     if ok_shape:
